@@ -895,3 +895,35 @@ def probe_short_pulse(wd):
     return {'key': 'probe/short-pulse', 'start': org, 'expect': [data], 'runs': runs, 'dropped': [], 'names': 'rom',
             'gen': {'how': 'bin2tap -o 40000 of 50 bytes; last block replaced by TZX 0x12 (2168 x 1750), 0x13 [20], 0x12 (2168 x 3223), '
                            '0x13 [667, 735], 0x14 data; fast-load=0'}, 'tape': 'sp.tzx'}
+
+
+def probe_short_gap(wd):
+    """No gap between the blocks of a bin2tap tape (TZX pause 0) and a real (not fast) load: with pause=0 the tape has moved on
+    when BASIC asks for the next block, with pause=1 it waits - the announce sets the clock to different edges."""
+    _skool()
+    from skoolkit import bin2tap
+    org = 40000
+    data = [random.Random(2).randrange(256) for _ in range(50)]
+    src, tap, tzx = (os.path.join(wd, 'sg.' + e) for e in ('bin', 'tap', 'tzx'))
+    with open(src, 'wb') as f:
+        f.write(bytes(data))
+    _, e, rc = pipedrv.run_tool(bin2tap.main, ['-o', str(org), src, tap])
+    if rc:
+        raise MachineryError('bin2tap failed: %s' % e[-200:])
+    raw = open(tap, 'rb').read()
+    out = bytearray(tapedrv.tzx_header())
+    i = 0
+    while i + 2 <= len(raw):
+        ln = raw[i] + 256 * raw[i + 1]
+        out += tapedrv.tzx10(raw[i + 2:i + 2 + ln], 0)
+        i += 2 + ln
+    with open(tzx, 'wb') as f:
+        f.write(out)
+    loads = [(org, data)]
+    runs = []
+    for cfg in ({'fast-load': 0}, {'fast-load': 0, 'pause': 0}, {'fast-load': 0, 'pause': 0, 'accelerator': 'none'}):
+        s, err, _ = run_tap2sna(tzx, os.path.join(wd, 'sg.z80'), org, cfg)
+        runs.append(project(s, err, cfg, loads))
+    return {'key': 'probe/short-gap', 'start': org, 'expect': [data], 'runs': runs, 'dropped': [], 'names': 'rom',
+            'gen': {'how': 'bin2tap -o 40000 of 50 bytes; every TAP block as TZX 0x10 with pause 0 ms; fast-load=0; pause=1 vs pause=0'},
+            'tape': 'sg.tzx'}
